@@ -6,7 +6,7 @@ ARMED = True
 TECHNIQUE = "must-pass-through pairing over the MIR CFG (death site => free-list push on every path to return) + value-origin of the fresh-index counter"
 EXPLANATION = (
     "R1 (every death is recycled): death sites are discovered by role (BitSet::remove on the allocator's `alive` field). From each "
-    "death site every CFG path to a normal return must pass a recycle site: a call on the allocator's free-list field of a method "
+    "death site (and from every call that kills a generation slot) every CFG path to a normal return must pass a recycle site: a call on the allocator's free-list field of a method "
     "that grows its vector (derived: EntityCache methods that call Vec::push/extend/... on their `cache` field). R1b: the recycled "
     "collection and the dying index share a data root other than the bare receiver. R2 (fresh index only when the free list is empty): "
     "every modification of the `max_id` counter (atomic RMW, helper that does one, or a store through get_mut) sits in the failure "
@@ -25,6 +25,7 @@ def run(ctx):
     ctx.rule("C17-R1", "every index whose alive bit is cleared is pushed onto the free list on every path to return")
     ctx.rule("C17-R1b", "the recycled collection shares a data root with the dying index")
     ctx.rule("C17-R2", "the fresh-index counter is bumped only where a free-list pop failed")
+    ctx.rule("C17-R3", "no index is lost in merge: every pending creation becomes alive or is reported dead (and then recycled by R1)")
     for cfg in (["A"] if ctx.tier == "quick" else ["A", "F", "N", "FN"]):
         facts = ctx.facts(cfg)
         model = AllocModel(facts)
@@ -33,7 +34,7 @@ def run(ctx):
         ctx.note("[%s] growers: %s; must-recycle wrappers: %s" % (cfg, sorted(model.growers), sorted(model.recyclers())))
         nd = 0
         for b in model.bodies + model.closures:
-            deaths = model.death_sites(b)
+            deaths = model.death_sites(b) + [(bb, b.term(bb)) for bb, k in model.gen_slot_calls(b, model.die)]
             if not deaths:
                 continue
             rec = model.recycle_sites(b)
@@ -45,7 +46,7 @@ def run(ctx):
                        "" if ok else "index killed here is not pushed to the free list on path %s (recycle sites: %s)" % (
                            b.fmt_path(wit), [b.loc(x) for x in sorted(rblocks)] or "none"))
                 # R1b: shared data root
-                if rec:
+                if rec and t["callee"].get("name") == "remove":
                     droots = nontrivial_roots(b, b.arg_origin(bb, 1))
                     shared = False
                     for rbb, rt in rec:
@@ -58,6 +59,7 @@ def run(ctx):
                            True if shared else "undetermined", b.loc(bb),
                            "" if shared else "could not relate the recycled collection to the dying index (roots %s)" % sorted(map(repr, droots)))
         ctx.floor("C17-R1", "death sites in the allocator", nd, 2)
+        _alloc_rules.merge_accounting(ctx, facts, model, {'revive': 'C17-R3'})
         n, _ = _alloc_rules.fresh_only_after_failed_pop(ctx, facts, "C17-R2")
         ctx.floor("C17-R2", "counter bump sites", n, 2)
 
